@@ -60,12 +60,14 @@ def ref_decimal(s):
 
 ATOMS = [(None, "null", "null"), (0, "0", "0"), (-1, "(-1)", "-1"), (2 ** 63 - 1, "9223372036854775807", "9223372036854775807"),
          (-2 ** 63, "(-9223372036854775808)", "-9223372036854775808"), (0.5, "0.5", "0.5"), (1e300, "1.0e300", "1e300"),
-         ("", '""', '""'), ('a"\\\n', lit_str('a"\\\n'), json.dumps('a"\\\n')), ("é", '"é"', '"é"')]
+         ("", '""', '""'), ('a"\\\n', lit_str('a"\\\n'), json.dumps('a"\\\n')), ("é", '"é"', '"é"'),
+         # 64-bit integers held in big representation (results of ^ and of arithmetic through a big intermediate): still integers in JSON
+         (8, "((2^70+8)-2^70)", "8"), (3 ** 35, "(3^35)", str(3 ** 35))]
 
 
 def json_values(tier):
     """(python value, noulith literal, json text)"""
-    atoms = ATOMS if tier != "quick" else [ATOMS[i] for i in (0, 1, 3, 4, 5, 8, 9)]
+    atoms = ATOMS if tier != "quick" else [ATOMS[i] for i in (0, 1, 3, 4, 5, 8, 9, 10, 11)]
     lvl1 = list(atoms)
     # containers of depth 1
     cont = []
@@ -169,6 +171,12 @@ def cases(tier, shard, nshards):
                 yield Case("int_radix(str_radix(%s, %d), %d) == %s" % (src, b, b, src), dict(meta, op="law"))
                 yield Case('int_radix("%s", %d)' % (to_base(v, b), b), dict(meta, op="parse"))
                 yield Case('int_radix("%s", %d)' % (to_base(v, b).upper(), b), dict(meta, op="parse"))
+            if b in (2, 10, 16, 36):
+                # the base itself held in big representation: a base is a value, not a representation
+                bb = "((2^70+%d)-2^70)" % b
+                yield Case("str_radix(%s, %s)" % (src, bb), dict(meta, op="radix", base=b))
+                if v >= 0:
+                    yield Case('int_radix("%s", %s)' % (to_base(v, b), bb), dict(meta, op="parse"))
     # ---------- B: decimal grammar
     signs = ["", "-", "+"]
     ints = ["", "0", "7", "12", "007"]
